@@ -362,6 +362,13 @@ func Solve(query string, timeoutS int, seed int, only []string) SolverResult {
 		for k := 1; k <= 3; k++ {
 			secondary = append(secondary, variant{fmt.Sprintf("z3-5.1.0/seed+%d", k), backends[0].argv(file, timeoutS, seed+k)})
 		}
+		// plain E-matching (no strategy selection, no model-based instantiation): decides trigger-driven goals at once
+		// that the default strategy of z3 gets lost in when reals or nonlinear terms occur anywhere in the query
+		em := func(name, bin string) variant {
+			return variant{name, []string{bin, fmt.Sprintf("-T:%d", timeoutS), "smt.auto_config=false", "smt.mbqi=false",
+				fmt.Sprintf("smt.random_seed=%d", seed), file}}
+		}
+		secondary = append(secondary, em("z3-4.8.12/ematch", "/usr/bin/z3"), em("z3-5.1.0/ematch", "z3-new"))
 		tfile := file + ".tactic.smt2"
 		tq := strings.Replace(query, "(check-sat)", "(check-sat-using (then simplify propagate-values solve-eqs smt))", 1)
 		if tq != query && !strings.Contains(query, "(get-value") {
